@@ -202,8 +202,10 @@ def exit_loopback_cases():
     from pynetdicom2 import applicationentity as aemod, sopclass
     out = []
     CT = '1.2.840.10008.5.1.4.1.1.2'
+    from pynetdicom2 import exceptions
     for contexts_accepted in (True, False):
-        for body_raises in (False, True):
+        for body_raises in (False, ValueError('body'), exceptions.AssociationRejectedError(2, 1, 3),
+                            exceptions.DCMTimeoutError(), exceptions.ClassNotSupportedError('x')):
             srv = aemod.AE('SERVER', 0).add_scp(sopclass.verification_scp)
             log = []
             with loopback.serving(srv) as port:
@@ -223,16 +225,16 @@ def exit_loopback_cases():
                                 return _f(*a, **kw)
                             setattr(assoc, name, rec)
                         if body_raises:
-                            raise ValueError('body')
-                except ValueError:
+                            raise body_raises
+                except (ValueError, exceptions.NetDICOMError):
                     pass
                 except Exception as e:  # noqa
                     log.append('unexpected:%r' % (e,))
             first = [x for x in log if x in ('release', 'abort', 'kill')]
             ending = {'release': 'DoRelease', 'abort': 'DoAbort', 'kill': 'DoKill'}.get(first[0] if first else '', 'DoKill')
-            out.append(('(ExitCase true %s %s)' % (cbool(body_raises), ending),
+            out.append(('(ExitCase true %s %s)' % (cbool(bool(body_raises)), ending),
                         dict(scenario='exit-over-loopback', contexts_accepted=contexts_accepted, n_contexts=n_ctx,
-                             body_raises=body_raises, log=log)))
+                             body_raises=repr(body_raises), log=log)))
     return out
 
 
